@@ -117,3 +117,50 @@ def has_wildcard_cycle(descs: dict[str, list[dict]]) -> bool:
             seen.add(m)
             todo.extend(edges[m])
     return False
+
+
+def gen_ring(rng: random.Random) -> tuple[dict[str, str], dict[str, list[dict]]]:
+    """Re-export rings across the two packages: every module of the ring imports the name from the next one (explicitly or
+    by wildcard), some also define it locally before/after the import, some list it in __all__.  Loaded incrementally
+    (load, resolve, load more, resolve) such rings get closed *after* part of them was already resolved."""
+    k = rng.randint(2, 5)
+    ring = rng.sample(MODULES, k)
+    if not any(m.split(".")[0] == "q" for m in ring):
+        ring[rng.randrange(k)] = rng.choice(["q", "q.d"])
+    if not any(m.split(".")[0] == "p" for m in ring):
+        ring[rng.randrange(k)] = rng.choice(["p", "p.a", "p.b"])
+    ring = list(dict.fromkeys(ring))
+    name = rng.choice(NAMES)
+    files = {mod_file(m): "" for m in MODULES}
+    descs: dict[str, list[dict]] = {m: [] for m in MODULES}
+    for i, mod in enumerate(ring):
+        nxt = ring[(i + 1) % len(ring)]
+        lines, ds = [], []
+        local = rng.random() < 0.4
+        local_first = rng.random() < 0.5
+        definition = rng.choice([f"def {name}(): ...", f"class {name}: ...", f"{name} = 1"])
+        if local and local_first:
+            lines.append(definition)
+            ds.append({"t": "def", "name": name})
+        if rng.random() < 0.45:
+            lines.append(f"from {nxt} import *")
+            ds.append({"t": "wild", "module": nxt})
+        else:
+            asname = rng.choice([None, None, name, rng.choice(NAMES)])
+            lines.append(f"from {nxt} import {name}" + (f" as {asname}" if asname else ""))
+            ds.append({"t": "from", "module": nxt, "name": name, **({"as": asname} if asname else {})})
+        if local and not local_first:
+            lines.append(definition)
+            ds.append({"t": "def", "name": name})
+        if rng.random() < 0.4:
+            lines.append(f"__all__ = [{name!r}]")
+            ds.append({"t": "all", "names": [name]})
+        files[mod_file(mod)] = "\n".join(lines) + "\n"
+        descs[mod] = ds
+    # a little noise elsewhere
+    for mod in MODULES:
+        if mod not in ring and rng.random() < 0.3:
+            s, d = gen_statement(rng, mod, True)
+            files[mod_file(mod)] = s + "\n"
+            descs[mod] = [d]
+    return files, descs
